@@ -55,6 +55,19 @@ def insertBy (c : CKind) (x : Val) : List Val → List Val
     | .eq => x :: ys
     | .gt => y :: insertBy c x ys
 
+/-- The same insertion for an arbitrary comparison of *entries* (a key type whose Rust `Ord` is coarser than its
+encoding, or any other order): an entry that compares equal is replaced as a whole by the later one. -/
+def insertByCmp (cmp : Val → Val → Ordering) (x : Val) : List Val → List Val
+  | [] => [x]
+  | y :: ys => match cmp x y with
+    | .lt => x :: y :: ys
+    | .eq => x :: ys
+    | .gt => y :: insertByCmp cmp x ys
+
+/-- `FromIterator` for an arbitrary entry comparison -/
+def collectCmp (cmp : Val → Val → Ordering) (vs : List Val) : List Val :=
+  vs.foldl (fun acc x => insertByCmp cmp x acc) []
+
 /-- `FromIterator` of the target collection, as a canonical (ascending) entry list -/
 def collect : CKind → List Val → List Val
   | .vec, vs => vs
